@@ -89,8 +89,8 @@ def negatives(report, items):
 def c01(report):
     report.nontrivial_rule = ("spec edges (fit/partial_fit/add_arm/remove_arm/queries) replayed on a real MAB; "
                               "non-trivial = distinct (policy, call path) whose batch omits an arm or follows an arm change")
-    jobs = cf_jobs(CF_LPS, report.tier, report.seed, eps=None)
-    jobs += cf_jobs(["eg"], report.tier, report.seed, bfs=False, tag="-eps", eps=0.5)
+    jobs = cf_jobs(CF_LPS, report.tier, report.seed, eps=None, checks=("state", "result"))
+    jobs += cf_jobs(["eg"], report.tier, report.seed, bfs=False, tag="-eps", eps=0.5, checks=("state", "result"))
     ecf.run_jobs(report, jobs, either(by_clause("state.acc", "state.total", "state.expv", "result.sampler"),
                                       by_clause("call.exception", ops={"fit", "partial_fit", "add_arm", "remove_arm",
                                                                        "predict_expectations"})))
@@ -106,46 +106,68 @@ def c01(report):
 def c06(report):
     report.nontrivial_rule = "pairs of call sequences (different chunkings) reaching the same documented state"
     ops = {"fit", "partial_fit", "predict_expectations"}
-    jobs = cf_jobs(CF_LPS, report.tier, report.seed, ops=ops, over=dict(QueryRows={0}, MaxHist=4))
-    ecf.run_jobs(report, jobs, either(by_clause("confluence"),
+    jobs = cf_jobs(CF_LPS, report.tier, report.seed, ops=ops, over=dict(QueryRows={0}, MaxHist=4), checks=("state", "confluence"))
+    ecf.defer(jobs, either(by_clause("confluence"),
                                       by_clause("state.acc", "state.total", "state.expv", "call.exception",
                                                 ops={"partial_fit"})))
     negatives(report, [("pop", "PopStaleNorm", "Inv_C01_Term", None), ("ucb1", "UcbBatchN", "Inv_C01_Term", None)])
+    ljobs = life_jobs(report.tier, report.seed, {"fit", "partial_fit", "predict_expectations"}, depth=5,
+                      over=dict(QueryRows={2}, Offsets={0}, MaxChunk=3, MaxHist=6), only=lambda c: c[1] != "tree", tag="-c06",
+                      checks=("state", "confluence"))
+    ecf.defer(ljobs, either(by_clause("confluence", "state.history"),
+                                       by_clause("call.exception", ops={"partial_fit"})))
+    ecf.flush(report)
     _nontrivial_from_counts(report, "cf.confluent")
 
 
 def c07(report):
     report.nontrivial_rule = "fit edges out of non-initial states compared with a freshly constructed bandit"
     ops = FULL_OPS | {"warm_start"}
-    jobs = cf_jobs(CF_LPS, report.tier, report.seed, ops=ops, over=dict(QueryRows={0, 2}))
-    ecf.run_jobs(report, jobs, either(by_clause("fresh"), by_clause("state.", "call.exception", ops={"fit"})))
+    jobs = cf_jobs(CF_LPS, report.tier, report.seed, ops=ops, over=dict(QueryRows={0, 2}), checks=("state", "fresh"))
+    ecf.defer(jobs, either(by_clause("fresh"), by_clause("state.", "call.exception", ops={"fit"})))
     negatives(report, [("eg", "FitKeepsSums", "Prop_C07_FitIsFresh", None), ("ucb1", "UcbTotalAccumulates", "Prop_C07_FitIsFresh", None),
                        ("ts", "FitKeepsStatus", "Prop_C07_FitIsFresh", dict(Ops=FULL_OPS | {"warm_start"}))])
+    ljobs = life_jobs(report.tier, report.seed, FULL_OPS | {"warm_start"}, tag="-c07", checks=("state", "fresh"))
+    ecf.defer(ljobs, either(by_clause("fresh"), by_clause("state.", "call.exception", ops={"fit"})))
+    ecf.flush(report)
+    ecf.life_negative(report, "FitKeepsRows", "Prop_C07_FitIsFresh")
     _nontrivial_from_counts(report, "cf.fresh")
 
 
 def c08(report):
     report.nontrivial_rule = "edges after which arms / keys / result shapes were checked; non-trivial = follows an arm change"
-    jobs = cf_jobs(CF_LPS, report.tier, report.seed, ops=FULL_OPS | {"warm_start"})
-    ecf.run_jobs(report, jobs, by_clause("shape", "state.keys", "state.arms"))
+    jobs = cf_jobs(CF_LPS, report.tier, report.seed, ops=FULL_OPS | {"warm_start"}, checks=("state", "shape"))
+    ecf.defer(jobs, by_clause("shape", "state.keys", "state.arms"))
     nb_side(report, ("shape", "trace.post.arms", "trace.Inv_C08", "predict.exception"))
+    ljobs = life_jobs(report.tier, report.seed, FULL_OPS | {"warm_start"}, over=dict(QueryRows={1, 2, 3}), tag="-c08", checks=("state", "shape"))
+    ecf.defer(ljobs, by_clause("shape", "state.keys", "state.arms", "call.exception"))
+    ecf.flush(report)
     _nontrivial_from_counts(report, "cf.queries")
 
 
 def c09(report):
     report.nontrivial_rule = "predict edges compared with the first maximiser of predict_expectations from the same stream position"
-    jobs = cf_jobs(CF_LPS, report.tier, report.seed, ops=FULL_OPS | {"warm_start"}, over=dict(QueryRows={0, 1, 3}))
-    jobs += cf_jobs(["eg"], report.tier, report.seed, bfs=False, tag="-eps", eps=0.5, over=dict(QueryRows={0, 1, 3}))
-    ecf.run_jobs(report, jobs, by_clause("argmax", "result.arm"))
+    jobs = cf_jobs(CF_LPS, report.tier, report.seed, ops=FULL_OPS | {"warm_start"}, over=dict(QueryRows={0, 1, 3}),
+                   checks=("argmax", "result"))
+    jobs += cf_jobs(["eg"], report.tier, report.seed, bfs=False, tag="-eps", eps=0.5, over=dict(QueryRows={0, 1, 3}),
+                    checks=("argmax", "result"))
+    ecf.defer(jobs, by_clause("argmax", "result.arm"))
     nb_side(report, ("argmax", "nonhood"), lps=("eg", "ucb1", "ts", "softmax"))
+    ljobs = life_jobs(report.tier, report.seed, FULL_OPS | {"warm_start"}, over=dict(QueryRows={1, 3}), tag="-c09", checks=("argmax",))
+    ecf.defer(ljobs, by_clause("argmax"))
+    ecf.flush(report)
     _nontrivial_from_counts(report, "cf.queries")
 
 
 def c10(report):
     report.nontrivial_rule = "query edges after which the deep snapshot of the bandit (minus random streams) was compared"
-    jobs = cf_jobs(CF_LPS, report.tier, report.seed, ops=FULL_OPS | {"warm_start"}, over=dict(QueryRows={0, 1, 3}))
-    ecf.run_jobs(report, jobs, by_clause("readonly"))
+    jobs = cf_jobs(CF_LPS, report.tier, report.seed, ops=FULL_OPS | {"warm_start"}, over=dict(QueryRows={0, 1, 3}),
+                   checks=("readonly",))
+    ecf.defer(jobs, by_clause("readonly"))
     nb_side(report, ("readonly",))
+    ljobs = life_jobs(report.tier, report.seed, FULL_OPS | {"warm_start"}, over=dict(QueryRows={1, 3}), tag="-c10", checks=("readonly",))
+    ecf.defer(ljobs, by_clause("readonly"))
+    ecf.flush(report)
     _nontrivial_from_counts(report, "cf.queries")
 
 
@@ -191,15 +213,22 @@ def c17(report):
             kinds |= {"ts_nonbinary"}
             kinds -= {"add_binarizer_non_ts"}
         over = dict(RejectKinds=kinds, QueryRows={0}, Rewards={1, 3} if lp != "ts" else {0, 1})
-        jobs += cf_jobs([lp], report.tier, report.seed, ops=FULL_OPS | {"reject", "warm_start"}, over=over)
-    ecf.run_jobs(report, jobs, by_clause("reject"))
+        jobs += cf_jobs([lp], report.tier, report.seed, ops=FULL_OPS | {"reject", "warm_start"}, over=over, checks=("reject",))
+    ecf.defer(jobs, by_clause("reject"))
+    ljobs = life_jobs(report.tier, report.seed, FULL_OPS | {"warm_start", "reject"}, rejects=True, over=dict(QueryRows={1}),
+                      only=lambda c: c[1] is not None or c[0].startswith("lin-"), tag="-c17", checks=("reject",))
+    ecf.defer(ljobs, by_clause("reject"))
+    ecf.flush(report)
     _nontrivial_from_counts(report, "cf.rejects")
 
 
 def c19(report):
     report.nontrivial_rule = "states at which deepcopy and pickle (protocols 2-5) clones were compared with the original"
-    jobs = cf_jobs(CF_LPS, report.tier, report.seed, ops=FULL_OPS | {"warm_start"})
-    ecf.run_jobs(report, jobs, by_clause("clone"))
+    jobs = cf_jobs(CF_LPS, report.tier, report.seed, ops=FULL_OPS | {"warm_start"}, checks=("clone",))
+    ecf.defer(jobs, by_clause("clone"))
+    ljobs = life_jobs(report.tier, report.seed, FULL_OPS | {"warm_start"}, over=dict(QueryRows={1}), tag="-c19", checks=("clone",))
+    ecf.defer(ljobs, by_clause("clone"))
+    ecf.flush(report)
     _nontrivial_from_counts(report, "cf.clones")
 
 
@@ -466,6 +495,46 @@ def c05(report):
     report.assumptions += ["process-based backends are compared through their results and through hook events written per "
                            "process; row-level interleavings inside a chunk cannot be forced from outside and are covered by "
                            "the chunk start orders TLC enumerates"]
+
+
+# ---------------------------------------------------------------------------
+# policy-agnostic life cycle (Life.tla) over every learning x neighbourhood combination
+def combos(tier, seed, only=None):
+    from harness import gen
+    allc = [(lp, np_) for np_ in gen.NPS for lp in gen.LPS if gen.valid(lp, np_)]
+    if only:
+        allc = [c for c in allc if only(c)]
+    if tier == "thorough":
+        return allc
+    third = [c for i, c in enumerate(allc) if (i + seed) % 3 == 0]
+    must = [("ts", "lsh"), ("lin-ts", "radius"), ("ucb1", "tree"), ("softmax", "clusters"), ("lin-ucb", None), ("pop", None)]
+    return third + [c for c in must if c in allc and c not in third]
+
+
+def life_jobs(tier, seed, ops, checks=None, rejects=False, depth=None, over=None, only=None, sims=True, tag=""):
+    from harness import gen
+    jobs = []
+    for i, (lp, np_) in enumerate(combos(tier, seed, only)):
+        bkw = dict(lp=lp, np_=np_, labelmap=["int", "str", "float"][(i + seed) % 3],
+                   container=["ndarray", "list", "pandas"][(i // 3 + seed) % 3],
+                   n_jobs=[1, 2, 3][(i + seed) % 3] if np_ else 1, backend="threading" if np_ else None)
+        if np_ == "tree" and lp == "ts":
+            bkw["n_jobs"] = 1        # leaf policies share the main generator between threads (known finding F7, decided by C05)
+        b = gen.GenBinding(**bkw)
+        o = dict(Ops=set(ops), MinFit=b.min_fit, MaxDepth=depth or (5 if tier == "thorough" else 4))
+        if rejects:
+            o["RejectKinds"] = b.reject_kinds()
+        o.update(over or {})
+        common = dict(module="Life", bindings=[bkw], invariants=ecf.LIFE_INVARIANTS, properties=ecf.LIFE_PROPERTIES)
+        if checks is not None:
+            common["checks"] = checks
+        name = "life%s-%s-%s" % (tag, lp, np_ or "none")
+        jobs.append(dict(common, name=name + "-bfs", mode="bfs", consts=ecf.life_consts(**o)))
+        if sims:
+            so = dict(o, MaxDepth=9, MaxHist=8)
+            jobs.append(dict(common, name=name + "-sim", mode="sim", sim_num=60 if tier == "thorough" else 15, seed=seed + i,
+                             consts=ecf.life_consts(**so)))
+    return jobs
 
 
 def _nontrivial_from_counts(report, key=None):
